@@ -25,7 +25,7 @@ def model(c, runs):
                                              W0=2, Thresh=1, ReadSizes={1, 3}), invariants=INVS)),
             dict(name="simulate (spec -> code)", module="Channel_Gen", simulate=True, expect="behaviours",
                  cfg=cfg_text(spec="GSpec", constants=GEN, invariants=["GenEmit"]),
-                 kw=dict(workers=1, simulate="num=%d" % (40 if c.quick else 800), extra=["-depth", "200", "-seed", str(c.seed + 1)]))]
+                 kw=dict(workers=1, simulate="num=%d" % (40 if c.quick else 500), extra=["-depth", "200", "-seed", str(c.seed + 1)]))]
     small = dict(BASE, OpsA={"sendall", "send_err"}, OpsB={"recv", "recv_err"}, SendN=4)
     for mut, inv in (("no_decrement", "WindowRespected"), ("ignore_maxpkt", "PacketBound"), ("over_ack", "NoOverGrant")):
         jobs.append(dict(name="sensitivity: " + mut, module="Channel", expect=inv, cfg=cfg_text(constants=dict(small, Mut=mut), invariants=INVS)))
@@ -99,14 +99,14 @@ def run(c):
     nb, differ = model(c, runs)
     laps = {"model+replay_s": round(time.time() - t0, 1)}
     progs = programs(rnd, 14 if c.quick else 250)
-    deadline = time.time() + (10 if c.quick else 300)
+    deadline = time.time() + (10 if c.quick else 200)
     explored = dc.explore_into(runs, c, progs, 6 if c.quick else 150, 4 if c.quick else 40, deadline, bound=1 if c.quick else 2,
                                max_steps=2500)
     laps["explore_s"] = round(time.time() - t0 - laps["model+replay_s"], 1)
     dc.validate(c, runs, INVS, describe)
     laps["validate_s"] = round(time.time() - t0 - laps["model+replay_s"] - laps["explore_s"], 1)
     c.extra["laps"] = laps
-    c.rule = ("M: windows 2-6, packet 1-3, threshold 0-2 (units), 2 sender threads + readers, both directions, every delivery timing of the "
+    c.rule = ("M: windows 2-5, packet 1-3, threshold 0-2 (units), 2 sender threads + readers, both directions, every delivery timing of the "
               "adjustments, three timeout modes. RP: %d TLC-simulated behaviours (%d differing) driven on real channels and compared message by "
               "message. TV: %d of %d programs with windows from {32768, 32769, 40000, 65536, 2^31-1, 2^31, 2^32-1} and packet sizes from {4096, "
               "4097, 8192, 32768, 65536, 2^32-1} per direction, 1-2 sender threads x 1-3 calls of send/send_stderr/sendall/sendall_stderr with "
